@@ -189,6 +189,21 @@ def handle(cmd, args):
         # for the classification of the failure: the bindings and the pattern, fully expanded
         binds = ' '.join('(%d %s)' % (k, sx.pat_to_s(full(v))) for k, v in r.items())
         return '(false reinst=%s seed=%s (binds %s) (pattern %s))' % (ok1, ok2, binds, sx.pat_to_s(full(pt)))
+    if cmd == 'law-matchlist-sound':
+        # soundness of the list form: a successful `match` re-instantiates EVERY equation's pattern to its instance
+        eqs = [(npat(e[0]), npat(e[1])) for e in args[0]]
+        r = P.match(eqs)
+        if r is None:
+            return 'none'
+        bad = [i for i, (pt, ins) in enumerate(eqs) if full(pt.instantiate(r)) != full(ins)]
+        if not bad:
+            return 'true'
+        # for the classification of the failure: the bindings and the failing patterns (as one application chain), expanded
+        binds = ' '.join('(%d %s)' % (k, sx.pat_to_s(full(v))) for k, v in r.items())
+        chain = full(eqs[bad[0]][0])
+        for i in bad[1:]:
+            chain = ('app', chain, full(eqs[i][0]))
+        return '(false equations=%s (binds %s) (pattern %s))' % (','.join(map(str, bad)), binds, sx.pat_to_s(chain))
     if cmd == 'law-match-complete':
         # completeness: the instance is pt[theta]; matching must succeed and agree with theta on metavars(pt)
         pt, theta = npat(args[0]), nmap(args[1])
